@@ -346,7 +346,7 @@ func ruleKindTests(c *core.Ctx) {
 // when reading under the same guard, and that guard looks through aliases.
 func ruleOptionalFieldSymmetry(c *core.Ctx) {
 	const rule = "O1"
-	c.Rule(rule, "python/ndjson.writeRecordConverter: the guard under which to_json/numpy_to_json omit a null field equals the guard under which from_json/from_json_to_numpy use `.get(...)`, and every nullability test on a field type in the NDJSON generators goes through dsl.GetUnderlyingType", 5)
+	c.Rule(rule, "python/ndjson.writeRecordConverter: the guard under which to_json/numpy_to_json omit a null field equals the guard under which from_json/from_json_to_numpy use `.get(...)`, and every nullability test on a field type in the NDJSON generators goes through dsl.GetUnderlyingType", 4)
 	_, d, p := c.Func("internal/python/ndjson", "writeRecordConverter")
 	if d == nil {
 		c.Undecided(rule, "anchor/python/ndjson.writeRecordConverter", 0, "anchor function not found")
@@ -398,11 +398,28 @@ func ruleOptionalFieldSymmetry(c *core.Ctx) {
 				}
 				// subject mentions a field's/step's/case's Type?
 				subj := types.ExprString(ta.X)
-				if !strings.HasSuffix(subj, ".Type") && !strings.Contains(subj, ".Type)") {
-					return true
-				}
 				fd := enclosingFuncDecl(f, ta)
 				if fd == nil {
+					return true
+				}
+				// ... or is a dsl.Type parameter of a helper (isNullable(t dsl.Type))
+				isTypeParam := false
+				inner := ast.Unparen(ta.X)
+				if ce, ok := inner.(*ast.CallExpr); ok && len(ce.Args) == 1 {
+					inner = ast.Unparen(ce.Args[0])
+				}
+				if id, ok := inner.(*ast.Ident); ok {
+					if v, ok := pp.TypesInfo.Uses[id].(*types.Var); ok && fd.Type.Params != nil {
+						for _, fl := range fd.Type.Params.List {
+							for _, nm := range fl.Names {
+								if pp.TypesInfo.Defs[nm] == types.Object(v) && types.ExprString(fl.Type) == "dsl.Type" {
+									isTypeParam = true
+								}
+							}
+						}
+					}
+				}
+				if !strings.HasSuffix(subj, ".Type") && !strings.Contains(subj, ".Type)") && !isTypeParam {
 					return true
 				}
 				// is the asserted value used for a null-option test?
